@@ -111,14 +111,18 @@ static void exec_line(const std::string &line) {
             Binson b = parse_tree(t, 1); std::vector<uint8_t> v = b.serialize();
             fprintf(fout, "ok %s\n", hex(v.data(), v.size()).c_str()); return;
         }
-        if (t[0].size() == 3 && t[0][0] == 'x' && t[0][1] == 'r') {
+        /* a trailing 'p' on xr<k>/xd<k>: the destination object already holds fields (deserialize must replace, not merge) */
+        bool pre = t[0].size() == 4 && t[0][3] == 'p';
+        if ((t[0].size() == 3 || pre) && t[0][0] == 'x' && t[0][1] == 'r') {
             Binson b = parse_tree(t, 1); std::vector<uint8_t> v = b.serialize();
-            Binson c; do_deserialize(c, t[0][2] - '0', std::string(v.begin(), v.end()), 0xC8);
+            Binson c; if (pre) { c.put("zz", BinsonValue((int64_t)1)); c.put("", BinsonValue(std::string("old"))); }
+            do_deserialize(c, t[0][2] - '0', std::string(v.begin(), v.end()), 0xC8);
             std::vector<uint8_t> w = c.serialize();
             fprintf(fout, "ok %s %s\n", hex(v.data(), v.size()).c_str(), hex(w.data(), w.size()).c_str()); return;
         }
-        if (t[0].size() == 3 && t[0][0] == 'x' && t[0][1] == 'd' && t.size() >= 3) {
-            Binson c; do_deserialize(c, t[0][2] - '0', unhex(t[2]), atoi(t[1].c_str()));
+        if ((t[0].size() == 3 || pre) && t[0][0] == 'x' && t[0][1] == 'd' && t.size() >= 3) {
+            Binson c; if (pre) { c.put("zz", BinsonValue((int64_t)1)); c.put("", BinsonValue(std::string("old"))); }
+            do_deserialize(c, t[0][2] - '0', unhex(t[2]), atoi(t[1].c_str()));
             std::vector<uint8_t> w = c.serialize();
             fprintf(fout, "ok %s\n", hex(w.data(), w.size()).c_str()); return;
         }
@@ -182,7 +186,7 @@ int main(int argc, char **argv) {
             if (chance(6)) tree = gen_deep(8 + (int)rn(5));      /* object nesting 8..12 (root counts) */
             else tree = gen_object(1, budget, chance(10) ? 12 : 8);
             emit("xs " + tree);
-            char op[8]; snprintf(op, sizeof op, "xr%d", 1 + (int)rn(5)); emit(std::string(op) + " " + tree);
+            char op[8]; snprintf(op, sizeof op, "xr%d%s", 1 + (int)rn(5), chance(40) ? "p" : ""); emit(std::string(op) + " " + tree);
         }
         fclose(fops); fclose(fout); return 0;
     }
